@@ -240,6 +240,9 @@ def run(facts, out):
     check_path_tokens(facts, out)
     check_sample_banks(facts, out)
     check_lossless(facts, out)
+    check_end_time_separator(facts, out)
+    check_line_termination(facts, out)
+    check_redundancy_tolerance(facts, out)
 
 
 # K7: values of the key/value, event and colour sections are written as they are stored.  The
@@ -317,6 +320,168 @@ def check_lossless(facts, out):
                                    'again yields a different value') % ', '.join(sorted({b[0] for b in bad})),
                 {'lossy': [b[0] for b in bad]} if bad else None, ordinal=False)
     out.anchor('KT', 'written values examined for lossy conversions', nvals >= 40, '%d' % nvals)
+
+
+# K8: the end time of a spinner is its own `,`-field; the end time of a hold is the first `:`-item of
+# the sample field.  Which separator follows the end time is decided by the object's kind alone.
+END_SEP = {'Spinner': ',', 'Hold': ':'}
+
+
+def check_end_time_separator(facts, out):
+    writer = writer_of(facts, 'HitObjects', 'encode::<impl beatmap::Beatmap>::encode_hit_objects')
+    hfn = facts.hir.get(writer)
+    out.anchor('KT', 'hit-object writer', hfn is not None)
+    if hfn is None:
+        return
+    arms = {}
+
+    def visit(n, anc):
+        if n.get('k') == 'match' and not n.get('src', '').startswith('TryDesugar'):
+            for a in n['arms']:
+                vs = []
+                _pat_variants(a['pat'], 'section::hit_objects::HitObjectKind', vs)
+                if vs and any(v in END_SEP for v in vs):
+                    evs = H.flat_write_events(facts, writer)   # ensure helpers resolvable
+                    arms.setdefault(tuple(sorted(vs)), []).append(a['body'])
+    H.walk(hfn['body'], visit)
+    found = 0
+    for vs, bodies in arms.items():
+        for body in bodies:
+            evs = _arm_write_events(facts, body)
+            if not evs:
+                continue        # the first match (position) writes nothing
+            found += 1
+            kinds = [v for v in vs if v in END_SEP]
+            seps = set()
+            dynamic = False
+            for ev in evs:
+                if ev['kind'] != 'fmt':
+                    continue
+                if not ev['pieces'] or ev['pieces'][-1][0] != 'lit':
+                    dynamic = True
+                else:
+                    seps.add(ev['pieces'][-1][1][-1:])
+            want = {END_SEP[k] for k in kinds}
+            ok = not dynamic and seps == want and len(want) == 1
+            out.add('KT-K8', writer, 'end-time-separator:' + '+'.join(kinds), 'src/encode.rs:%d' % (evs[0]['ln'] or 0), ok,
+                    '' if ok else ('the end time of %s is followed by %s; the decoder reads a spinner\'s end time as a `,` field and '
+                                   'a hold\'s as the first `:` item of the sample field, whatever the game mode') % (
+                        '/'.join(kinds), 'a separator chosen at run time' if dynamic else sorted(seps)), ordinal=False)
+    out.anchor('KT', 'spinner / hold arms of the hit-object writer', found >= 1, str(found))
+    # decoder side: the hold arm splits its field on ':'
+    dec = facts.hir.get('<section::hit_objects::decode::HitObjects as decode::DecodeBeatmap>::parse_hit_objects')
+    if dec is not None:
+        import hp
+        ctx = hp.Ctx(facts, H.binding_inits(dec), dec)
+        hits = hp.find(ctx, dec['body'], hp.M('split', hp.ANY(), hp.K(':')))
+        out.add('KT-K8', dec['path'], 'hold-field-split-on-colon', 'src/section/hit_objects/decode.rs', bool(hits),
+                '' if hits else 'the hold arm of the decoder no longer splits its field on `:`', ordinal=False)
+
+
+def _arm_write_events(facts, body):
+    """write events of a match-arm body with the local helpers it calls spliced in"""
+    pseudo = {'path': '<arm>', 'params': [], 'body': body}
+    out = []
+    for e in H.write_events(pseudo):
+        if e['kind'] == 'call' and e.get('def') in facts.hir:
+            sub = H.flat_write_events(facts, e['def'])
+            mapping = H.param_mapping(facts.hir[e['def']], e.get('callargs', []))
+            for s_ in sub:
+                if 'args' in s_ and mapping:
+                    s_['args'] = [H.subst(a, mapping) for a in s_['args']]
+            out.extend(sub)
+        else:
+            out.append(e)
+    return [e for e in out if e['kind'] in ('fmt', 'bytes')]
+
+
+# K10: every record of the key/value, event and colour sections is a line of its own: once a writer
+# has begun a line, a line feed is written -- unconditionally with respect to the event that began the
+# line -- before the next record begins or the writer returns.
+def _ckey(c):
+    return (c.get('k'), c.get('ln'))
+
+
+def check_line_termination(facts, out):
+    writers = [writer_of(facts, sec, w) for sec, (_d, _k, w) in SECTIONS.items()]
+    writers.append(writer_of(facts, 'Events', 'encode::<impl beatmap::Beatmap>::encode_events'))
+    writers.append(writer_of(facts, 'Colours', 'encode::<impl beatmap::Beatmap>::encode_colors'))
+    n = 0
+    for writer in writers:
+        if facts.hir.get(writer) is None:
+            continue
+        wbody = facts.body(writer)
+        wfile = wbody.file if wbody else 'src/encode.rs'
+        evs = [e for e in H.flat_write_events(facts, writer) if e['kind'] in ('fmt', 'bytes')]
+        open_ev = None
+        bad = None
+        for e in evs:
+            t = H.event_text(e)
+            n += 1
+            if t is None:
+                # bytes not known statically
+                if open_ev is not None:
+                    bad = bad or (e, 'the line begun at line %d is continued/terminated by bytes chosen at run time' % open_ev['ln'])
+                continue
+            if e.get('opaque'):
+                continue
+            starts_record = bool(t) and (t[0] == '\x00' or t[0].isalpha() or t[0] == '[')
+            if open_ev is not None:
+                if '\n' in t:
+                    oc = {_ckey(c) for c in open_ev['conds']}
+                    # a terminator under its own `if` may well be equivalent (`if !list.is_empty()`); one that sits
+                    # in a loop the line start is not in is written per item, not per line
+                    extra = [c for c in e['conds'] if _ckey(c) not in oc and c.get('k') in ('loop-marker', 'closure-marker')]
+                    if extra:
+                        bad = bad or (e, ('the line feed that ends the line begun at line %d is only written under a further '
+                                          'condition / inside a loop (line %s)') % (open_ev['ln'], extra[0].get('ln')))
+                    open_ev = None if t.endswith('\n') else e
+                elif starts_record and not (t[0] == '\x00' and len(e['conds']) > len(open_ev['conds'])):
+                    bad = bad or (e, 'a new record begins at line %d while the line begun at line %d has not been ended'
+                                  % (e['ln'], open_ev['ln']))
+                    open_ev = e
+            else:
+                if not t.endswith('\n'):
+                    open_ev = e
+        if open_ev is not None and bad is None:
+            bad = (open_ev, 'the line begun at line %d is never ended' % open_ev['ln'])
+        ok = bad is None
+        out.add('KT-K10', writer, 'records-are-lines', '%s:%d' % (wfile, bad[0]['ln'] if bad else (wbody.line if wbody else 0)), ok,
+                '' if ok else bad[1] + ': the next record would be glued to this line and misread or dropped by the decoder',
+                ordinal=False)
+    out.anchor('KT', 'write events examined for line termination', n >= 20, '%d' % n)
+
+
+# K9: the encoder drops an inherited line whose properties equal the previous ones; the decoder drops a
+# point that repeats the active one.  Both use a tolerance on floating-point fields: if the encoder's
+# is coarser than the decoder's, points the decoder kept are not written and are gone after a round trip.
+def check_redundancy_tolerance(facts, out):
+    import hp
+    fns = [p for p in facts.hir if p.endswith('::is_redundant')]
+    out.anchor('KT', 'redundancy predicates (decoder points + encoder properties)', len(fns) >= 4, str(sorted(fns)))
+    tol = {}
+    for p in fns:
+        h = facts.hir[p]
+        ctx = hp.Ctx(facts, H.binding_inits(h), h)
+
+        def visit(n, anc):
+            if n.get('k') == 'binary' and n.get('op') in ('Lt', 'Le'):
+                a = hp.strip(n['a'])
+                if isinstance(a, dict) and a.get('k') == 'mcall' and a.get('name') == 'abs':
+                    v = ctx.const_value(n['b'])
+                    tol.setdefault(p, []).append(v)
+        H.walk(h['body'], visit)
+    vals = {v for vs in tol.values() for v in vs}
+    enc = [p for p in fns if p.startswith('encode::')]
+    for p in enc:
+        dec_vals = {v for q, vs in tol.items() if q not in enc for v in vs}
+        mine = set(tol.get(p, []))
+        ok = bool(mine) and None not in mine and bool(dec_vals) and max(mine) <= min(x for x in dec_vals if x is not None)
+        out.add('KT-K9', p, 'redundancy-tolerance', 'src/encode.rs', ok,
+                '' if ok else ('the encoder treats control-point properties as unchanged within %s, the decoder keeps points that '
+                               'differ by more than %s: such points are not written and are lost on a round trip')
+                % (sorted(mine, key=str), sorted(dec_vals, key=str)), ordinal=False)
+    out.anchor('KT', 'encoder redundancy predicate', bool(enc), str(enc))
 
 
 def check_key_fromstr(facts, out):
